@@ -147,6 +147,82 @@ let () =
   register "RX" (rx false); register "RXC" (rx true)
 
 let () =
+  (* RDL (C05): valid frames, then the header of a frame announcing [ln] bytes (possibly >= 2^32), then a few bytes;
+     MaxFrameSize is set and ln exceeds it. "announces more than the configured maximum -> the size error when
+     asked for frame k; never delivers a payload byte of the offending frame or of anything after it" *)
+  register "RDL" (fun i o -> match i, o with
+    | [cfg; frames; hframe; ln; trailing; spec; bufs], [evs; partial; err] ->
+      let (c, skip, cb) = K_reader.cfg_of_tok cfg in
+      let fs = K_reader.frames_of_tok frames in
+      let hf = List.hd (K_reader.frames_of_tok hframe) in
+      let lnz = z_of_i64_string ln in
+      let evs = K_reader.events_of_tok evs and partial = bytes_of_hex partial in
+      let h = { (Reader.sf_header hf) with Check.h_len = lnz } in
+      let data = wire fs @ Frame.rfc_header h @ bytes_of_hex trailing in
+      let sp = spec_run c Datatypes.O None [] fs in
+      let too_large = (match c.c_max with BinNums.Z0 -> false | m -> BinInt.Z.ltb m lnz) in
+      let hdr_ok = (match sp.sr_out with
+        | OClean -> Check.check_header h c.c_state = None
+        | OCutMidMessage -> Check.check_header h (Reader.set_fragmented c.c_state true) = None
+        | _ -> false) in
+      if not (too_large && hdr_ok) then Pass false
+      else if err <> "toolarge" then Viol ("a frame announcing more than MaxFrameSize was not refused with the size error: " ^ err)
+      else if not (Reader.evs_match sp.sr_events evs) then Viol "events before an oversized frame are not those of the frames before it"
+      else if partial <> sp.sr_partial then Viol "bytes behind the header of an oversized frame were delivered as message data"
+      else begin
+        let m = K_reader.drive_model (c, skip, cb) data spec "eof" bufs (List.length fs + 1) in
+        if not (Reader.evs_eqb m.dr_events evs) then Diff "model events differ"
+        else if K_reader.string_of_rerror m.dr_err <> err then Diff ("model final error differs: " ^ K_reader.string_of_rerror m.dr_err)
+        else if m.dr_partial <> partial then Diff "model partial bytes differ"
+        else Pass true
+      end
+    | _ -> Diff "malformed line")
+
+let () =
+  register "CRS" (fun i o -> match i, o with
+    | [_; after; key], [x; y] ->
+      if y <> hex_of_bytes (Cipher.mask_spec (bytes_of_hex after) (bytes_of_hex key) BinNums.N0) then Diff "fresh CipherReader output is not the RFC mask"
+      else if x <> y then Viol "CipherReader after Reset (same source, same key) differs from a fresh one"
+      else Pass true
+    | _ -> Diff "malformed line")
+
+let () =
+  (* DXM (C17 "caller buffers are never modified"; C10 "the configured ... extensions"): one Dialer value used twice *)
+  register "DXM" (fun i o -> match i, o with
+    | [_; _], [before; after; offer1; offer2; res1; res2] ->
+      if before <> after then Viol "Dial wrote the server's answer into the caller's Dialer.Extensions"
+      else if offer1 <> offer2 then Viol "the second handshake of the same Dialer value offered other extensions than the first"
+      else if res1 <> res2 then Viol "two identical handshakes of one Dialer value returned different extensions"
+      else Pass true
+    | _ -> Diff "malformed line")
+
+let () =
+  register "W18X" (fun i o -> match i, o with
+    | [_; _; _], [intact; a; b] ->
+      if intact <> "1" then Viol "Reset / PutWriter wiped the caller's extension slice"
+      else if b = "panic" then Diff "fresh writer panicked in the harness scenario"
+      else if a <> b then Viol "a reset / pooled writer configured again from the same extension slice differs from a fresh one"
+      else Pass true
+    | _ -> Diff "malformed line")
+
+let () =
+  register "C19W" (fun i o -> match i, o with
+    | [role; _; _], [err; intact; races] ->
+      if int_of_string races > 0 then Viol (Printf.sprintf "the race detector reported %s data race(s) on a buffer a session had sent from" races)
+      else if intact <> "1" then Viol ("the buffer a " ^ role ^ "-side session sent a message from was overwritten by other sessions' use of the byte pool")
+      else if err <> "nil" then Diff ("one-shot write failed in the harness: " ^ err)
+      else Pass true
+    | _ -> Diff "malformed line");
+  register "C19G" (fun i o -> match i, o with
+    | [_], [same; srv; cli; races] ->
+      if int_of_string races > 0 then Viol (Printf.sprintf "the race detector reported %s data race(s) on the precompiled frames" races)
+      else if same <> "1" then Viol "a session changed a package-level precompiled frame shared by all sessions"
+      else if srv <> "8a00" then Viol "server-side reply to an empty ping is not the unmasked empty pong after other sessions ran"
+      else if String.length cli <> 12 || String.sub cli 0 4 <> "8a80" then Viol "client-side reply to an empty ping is not a masked empty pong after other sessions ran"
+      else Pass true
+    | _ -> Diff "malformed line")
+
+let () =
   register "FRP" (fun i o -> match i, o with
     | [_; _; _; _], [a; b; fresh_ok] ->
       if fresh_ok <> "1" then Viol "a fresh compression reader does not return the message that was compressed"
